@@ -205,6 +205,49 @@ fn one_case(rep: &Report, idx: usize, seed: u64) -> Option<(String, String)> {
                 rep.count("clones.http_with_a_cut_response_and_retries", 1);
             }
         }
+        // in-place update (`--seed-output`) of an older version that holds the source's chunks
+        // in another order (rotated / reversed / shuffled, sometimes with junk in between and
+        // a longer tail): the reader's own index of the output meets the foreign archive's
+        // hash length, order and layout.
+        {
+            let chunks = r1::chunk(&g.spec.cfg, &g.source);
+            if chunks.len() >= 3 {
+                let mut order: Vec<usize> = (0..chunks.len()).collect();
+                match idx % 3 {
+                    0 => order.rotate_left(1 + idx % (chunks.len() - 1)),
+                    1 => order.reverse(),
+                    _ => rng.shuffle(&mut order),
+                }
+                let mut prior = Vec::new();
+                for (k, &i) in order.iter().enumerate() {
+                    let (o, l) = (chunks[i].0 as usize, chunks[i].1 as usize);
+                    prior.extend_from_slice(&g.source[o..o + l]);
+                    if idx % 5 == 0 && k % 4 == 1 {
+                        prior.extend(rng.bytes(1 + k % 50));
+                    }
+                }
+                if idx % 4 == 0 {
+                    prior.extend(rng.bytes(300));
+                }
+                let out = dir.join("o_inplace.bin");
+                std::fs::write(&out, &prior).unwrap();
+                let cs = CloneSpec { archive: p(&apath), output: out.clone(), seed_output: true, verify_output: idx % 2 == 1, ..Default::default() };
+                let o = proc::run(&Run::new(&dir, "clone_inplace", scn::clone_args(&cs)));
+                rep.eval();
+                if o.exit == Exit::Timeout {
+                    rep.inconclusive("watchdog");
+                } else {
+                    if !o.exit.ok() {
+                        return Err(format!("in-place update from a conforming archive failed: {} :: {}", o.exit.describe(), o.tail()));
+                    }
+                    let got = std::fs::read(&out).unwrap_or_default();
+                    if got != g.source {
+                        return Err(format!("in-place update from a conforming archive gives a wrong output (first difference {:?}, {} vs {} bytes)", first_diff(&got, &g.source), got.len(), g.source.len()));
+                    }
+                    rep.count("clones.in_place", 1);
+                }
+            }
+        }
         // library: accessors + clone over a fragmenting reader
         let rt = crate::exec::rt_multi(1);
         let r = crate::util::catch(|| {
